@@ -375,6 +375,7 @@ type result struct {
 
 func run(c Case) (out result) {
 	m := &machine{c: c, occ: map[string]int{}}
+	closedSends := fakeconn.ClosedChanSends()
 	m.ctl = sched.New(c.Gates)
 	m.ctl.Observe = m.observe
 	res.VerifHook = m.ctl.Hook
@@ -510,6 +511,9 @@ func run(c Case) (out result) {
 	}
 	if m.listenerExits != m.listenerStarts {
 		m.viol = append(m.viol, fmt.Sprintf("%d query listener goroutines were started but only %d exited after every query event expired (goroutine/channel not released)", m.listenerStarts, m.listenerExits))
+	}
+	if n := fakeconn.ClosedChanSends() - closedSends; n > 0 {
+		m.viol = append(m.viol, fmt.Sprintf("%d messages were delivered to a subscription channel the service had already closed (a real client panics with send on closed channel): a query request can arrive after the drain was requested", n))
 	}
 	out.nEvents, out.nReqs = len(m.evs), len(m.reqs)
 	m.mu.Unlock()
